@@ -119,7 +119,7 @@ Proof.
     apply (IH _ _ _ _ _ _ Hf N (VPar p) i Hv').
     apply bind_args_zip in Eb. rewrite map_map in Eb.
     pose proof (zip_args_map (fun t => subst_term s (map_term f t)) (mparams d) acts []) as Z. simpl in Z. rewrite Z in Eb.
-    simpl. rewrite Eb, assoc_map_snd, Ea. simpl option_map.
+    simpl. rewrite Eb, assoc_map_snd, Ea. cbn [option_map].
     replace (map_term f (TV w)) with (TV (map_var f w)) by reflexivity.
     rewrite (subst_term_TV _ _ _ Hs). reflexivity.
 Qed.
